@@ -2171,6 +2171,13 @@ func countSinks(v ssa.Value, clamped bool, depth int, seen map[ssa.Value]bool) [
 		case *ssa.Call:
 			if g := x.Call.StaticCallee(); g != nil && g.Pkg != nil && g.Name() == "Repeat" && (g.Pkg.Pkg.Path() == "strings" || g.Pkg.Pkg.Path() == "bytes") && len(x.Call.Args) == 2 && x.Call.Args[1] == v {
 				out = append(out, x)
+			} else if g != nil && load.FuncInRepo(g) && g.Blocks != nil && len(g.Params) == len(x.Call.Args) {
+				// handed to a helper of the repository: followed into the parameter it arrives in
+				for i, a := range x.Call.Args {
+					if a == v {
+						out = append(out, countSinks(g.Params[i], clamped, depth+1, seen)...)
+					}
+				}
 			}
 		case *ssa.MakeSlice:
 			if x.Len == v || x.Cap == v {
